@@ -657,3 +657,19 @@ Section GH.
     rewrite exp_0. lra.
   Qed.
 End GH.
+
+(* ================================================================== 7. T10e closed with Proofs/DerivP.v *)
+From BV Require Import Proofs.DerivP.
+
+(* the only premise left is the external fact about the normal CDF (used by NormalCdf nodes only) *)
+Theorem derive_is_partial_closed (Phi : R -> R) :
+  (forall x, is_derive Phi x (D2R inv_sqrt_2pi * exp (- (x * x / 2)))%R) ->
+  forall t n w child en x0,
+    wrt_of t n = Some w -> dom Phi (w :: nil) (upd en w x0) child ->
+    exists d, derive_value Phi t n child (upd en w x0) = XR d /\
+              is_derive (fun x => valR (evalX Phi child (upd en w x))) x0 d.
+Proof.
+  intros HP. apply derive_is_partial.
+  - intros ws w en x0 e Hw Hd. exact (D_correct Phi HP ws w Hw en x0 e Hd).
+  - intros ws w en x0 e Hw Hd. exact (D_value Phi HP ws w Hw en x0 e Hd).
+Qed.
